@@ -102,9 +102,15 @@ func checkMain(args []string) int {
 		timeout = 60
 	}
 	outDir := filepath.Join(verifDir, "out", prop)
+	evPath := filepath.Join(verifDir, "evidence", prop+".json")
+	if sc := os.Getenv("VERIF_SCRATCH"); sc != "" {
+		// seeded-change trials only (run beside normal work against a scratch copy of the repository, see seeded/confirm2.sh):
+		// replay files and the evidence file of such a run go to the scratch directory. No registered command sets this.
+		outDir = filepath.Join(sc, "out", prop)
+		evPath = filepath.Join(sc, "evidence", prop+".json")
+	}
 	os.RemoveAll(outDir)
 	os.MkdirAll(outDir, 0755)
-	evPath := filepath.Join(verifDir, "evidence", prop+".json")
 	os.MkdirAll(filepath.Dir(evPath), 0755)
 
 	P, err := LoadProgram([]string{"./..."})
